@@ -397,6 +397,10 @@ class Program:
             d = self.by_id.get('%s::%s' % (trn, meth))
             if d is not None and not self._is_generic_self(q):
                 return [d]
+            # extension traits generated by a macro over an inherent-looking impl (easy_ext): `impl [T] { fn m }`
+            d = self.by_id.get('%s::%s' % (q, meth))
+            if d is not None and trn not in self.traits:
+                return [d]
         # generic Self / type parameter: every implementor + default
         if trn in self.traits:
             for f, b in self.by_id.items():
